@@ -1,1 +1,6 @@
-/- C20 — property theorems (stub: the slice is not built yet). -/
+import GB.C20.Model
+import GB.C20.Spec
+/- C20 — property theorems. -/
+open GB GB.C20
+
+theorem C20_placeholder : specParse [47] = some { segs := [], verb := none } := by decide
